@@ -95,7 +95,9 @@ def expected(before, named, recurse, fmt, d):
 tried = 0
 try:
     cases = []
-    for named in ([], ["."], ["d"], ["b.ign"], ["d/g.ign", "a"], ["d/sub/h"], ["d/sub"], ["e"], ["a", "d/sub/k.ign"]):
+    for named in ([], ["."], ["d"], ["b.ign"], ["d/g.ign", "a"], ["d/sub/h"], ["d/sub"], ["e"], ["a", "d/sub/k.ign"],
+                  # a directory and one of its descendants, in either order, and with unrelated names in between
+                  ["d/sub", "d"], ["d", "d/sub"], ["d/sub/h", "d"], ["e", "d/sub", "d"], ["d/sub", "e", "d", "a"]):
         for pre in ([], ["d"], ["d", "d/f"], ["a"]):
             for recurse in (True, False):
                 cases.append((named, pre, recurse))
